@@ -174,3 +174,54 @@ PROPS['C05'] = dict(
     must_observe={'failures reached': lambda agg, d: agg['counters'].get('faulted_runs_reaching_failure', 0) > 0,
                   'runs continuing after a failure': lambda agg, d: agg['counters'].get('faulted_runs_continuing_after_failure', 0) > 0},
 )
+
+
+# ---------------------------------------------------------------- C02
+def c02_jobs(tier):
+    return [
+        Job('default', 'c02', 'gen', q(tier, 60000, 2000000)),
+        Job('arduino', 'c02', 'gen', q(tier, 30000, 800000), shim=True),
+        Job('float-small', 'c02', 'gen', q(tier, 20000, 600000), defines={'ARDUINOJSON_USE_DOUBLE': 0, 'ARDUINOJSON_STRING_LENGTH_SIZE': 1, 'ARDUINOJSON_SLOT_ID_SIZE': 1}),
+    ]
+
+
+PROPS['C02'] = dict(
+    level='exploration',
+    rule='documents from gen_value (all scalar kinds at boundaries, NaN/inf, strings and keys over all 256 byte values incl. NUL and invalid UTF-8, raw JSON fragments, '
+         'empty containers, chains up to depth 300) built through the API (3/4) or obtained by deserialization (1/4); compact and pretty; destinations: guarded char buffer '
+         'of EVERY capacity 0..len+2 when len <= 160 (sampled above), char[N], std::string, std::ostream, custom writer, short-writing writer, Arduino String and Print (shim job); '
+         'non-trivial = container, float, string or raw; distinct = distinct model hash',
+    jobs=c02_jobs,
+    min_evaluations=dict(quick=80000, thorough=2000000),
+    technique='reference-oracle monitoring: output parsed by an independent strict RFC 8259 parser and rebuilt byte for byte from the model (float literals judged by tolerance, everything else exact); guarded buffers under ASan for every capacity',
+    level_text='Exploration: every document is serialized to every destination kind; the full text is checked byte for byte against the reference rendering, the buffers against the prefix/NUL/no-outside-write rules.',
+    level_note='The reference parser accepts unescaped control bytes inside strings because C17 fixes the serializer to pass them through (don\'t-care 12).',
+    assumptions=COMMON_ASSUME + ['doubles exactly representable as float are printed with float accuracy by design (don\'t-care 13)'],
+    extra_coverage={'buffer_capacities_checked': lambda agg, d: agg['counters'].get('buffer_capacities_checked', 0)},
+    must_observe={'buffer capacities': lambda agg, d: agg['counters'].get('buffer_capacities_checked', 0) > 0,
+                  'arduino destinations': lambda agg, d: agg['counters'].get('arduino_destinations_checked', 0) > 0},
+)
+
+
+# ---------------------------------------------------------------- C08
+def c08_jobs(tier):
+    return [
+        Job('default', 'c08', 'gen', q(tier, 40000, 2000000), timeout=q(tier, 900, 7200)),
+        Job('wide-lengths', 'c08', 'gen', q(tier, 15000, 800000), defines={'ARDUINOJSON_STRING_LENGTH_SIZE': 4}, shim=True, timeout=q(tier, 900, 7200)),
+        Job('float-small', 'c08', 'gen', q(tier, 15000, 600000), defines={'ARDUINOJSON_USE_DOUBLE': 0, 'ARDUINOJSON_STRING_LENGTH_SIZE': 1, 'ARDUINOJSON_SLOT_ID_SIZE': 1}),
+    ]
+
+
+PROPS['C08'] = dict(
+    level='exploration',
+    rule='1/3 boundary documents (string lengths 0,1,30..33,254..257,65534..65537; arrays/maps of 0,1,14..17,65535,65536 entries; bin/ext payloads around every header width; '
+         'integers around every power of two; floats over all exponents, integral floats, -0, subnormals, NaN, inf), alone or nested; 2/3 random documents incl. bin/ext and raw MessagePack; '
+         'all buffer capacities 0..len+2 for len <= 160 (sampled above), std::string, std::ostream, custom and short-writing writers, Print; distinct = distinct model hash',
+    jobs=c08_jobs,
+    min_evaluations=dict(quick=50000, thorough=2000000),
+    technique='reference-oracle monitoring: output decoded by an independent strict MessagePack decoder written from the specification and compared with the model (integers by value and sign, floats bit-exact unless integral, bin/ext verbatim); guarded buffers under ASan',
+    level_text='Exploration concentrated on every header-width boundary of the format; held on the documents observed.',
+    level_note='Trusts the reference decoder (self-tested on the specification examples in --setup). Only semantic equality is demanded, not a particular (e.g. minimal) encoding.',
+    assumptions=COMMON_ASSUME,
+    extra_coverage={'buffer_capacities_checked': lambda agg, d: agg['counters'].get('buffer_capacities_checked', 0)},
+)
